@@ -51,18 +51,28 @@ def cache_state(objs):
     return tuple(sig), hits
 
 
-def one_run(ctx, run, ops=None, trace=None, entry=None):
-    seed = ctx['seed']
-    wl = core.stream(seed, run, 'workload')
+def gen_params(ctx, run, entry=None):
+    """Everything the workload stream decides for a run (one place, so that the crash attribution and
+    the evidence samples regenerate exactly what the worker executed)."""
+    wl = core.stream(ctx['seed'], run, 'workload')
     e = entry or ctx['lib'][wl.randrange(len(ctx['lib']))]
-    m = e['meta']
     two = wl.random() < ctx['p_two_threads']
     xr_ok = wl.random() < ctx['p_xarray']
     n_ops = wl.choice([5, 8, 12, 20, 30, 40])
     policy = wl.choice(core.POLICIES)
+    sib_ok = wl.random() < ctx.get('p_sibling', 0) and e.get('sibling') is not None
+    ops = histories.gen_history(wl, e['meta'], n_ops, two_threads=two, xarray_ok=xr_ok, sibling_ok=sib_ok)
+    return e, two, policy, ops
+
+
+def one_run(ctx, run, ops=None, trace=None, entry=None):
+    seed = ctx['seed']
+    e, two, policy, gen_ops = gen_params(ctx, run, entry)
+    m = e['meta']
     if ops is None:
-        ops = histories.gen_history(wl, m, n_ops, two_threads=two, xarray_ok=xr_ok)
-    truth = histories.truth_for(e['data'], ops)
+        ops = gen_ops
+    sibling = e.get('sibling') if histories.uses_sibling(ops) else None
+    truth = histories.truth_for(e['data'], ops, sibling=sibling)
     chooser = core.ReplayChooser(trace) if trace is not None else \
         core.make_chooser(policy, core.stream(seed, run, 'schedule'), est_steps=300)
     states = set()
@@ -93,9 +103,7 @@ def one_run(ctx, run, ops=None, trace=None, entry=None):
             if prev is not None and prev != op[2][0]:
                 probes['method_switch_on_same_object'] += 1
             last_by_slot[op[1]] = op[2][0]
-    outcomes, fs, r = histories.execute(e['data'], ops, chooser, observer=observer)
-    for name, ci in ctx.get('_dummy', {}).items():
-        pass
+    outcomes, fs, r = histories.execute(e['data'], ops, chooser, observer=observer, sibling=sibling)
     rec = {'run': run, 'file': e['name'], 'layout': f"{m['kind']}/{m['layout']}", 'ops': len(ops), 'calls': 0,
            'states': sorted(states), 'probes': dict(probes), 'violation': None, 'two_threads': two,
            'ed': r.sched.digest(), 'simtime': r.sched.clock, 'status': r.status}
@@ -131,6 +139,9 @@ def one_run(ctx, run, ops=None, trace=None, entry=None):
                 return rec
     if any(v > 1 for v in seen_calls.values()):
         rec['probes']['identical_call_repeated_on_same_object'] = 1
+    on_sib = {c for (slot, c) in seen_calls if slot == 6}
+    if on_sib and on_sib & {c for (slot, c) in seen_calls if slot in (0, 1, 2, 3)}:
+        rec['probes']['same_call_on_file_and_sibling'] = 1
     kinds = {histories.kind_of_opener(o) for o in openers.values()}
     for k in kinds:
         rec['probes']['kind:' + k] = 1
@@ -151,7 +162,7 @@ def _viol(e, ops, i, cls, what, r, m):
 
 def replay_doc(doc, data):
     m = filelib.read_meta(data)
-    e = {'name': doc['file'], 'data': data, 'meta': m, 'spec': doc['spec']}
+    e = {'name': doc['file'], 'data': data, 'meta': m, 'spec': doc['spec'], 'sibling': filelib.make_sibling(data, m)}
     ctx = {'seed': doc.get('seed', 0), 'lib': [e], 'p_two_threads': 0, 'p_xarray': 0}
     rec = one_run(ctx, doc.get('run', 0), ops=[list(o) for o in doc['ops']], trace=doc['trace'], entry=e)
     v = rec['violation']
@@ -245,7 +256,9 @@ def main(tier, seed):
 def _main(tier, seed, scratch, t0):
     quick = tier == 'quick'
     lib = filelib.build(seed, scratch, n_random=6 if quick else 60)
-    ctx = {'seed': seed, 'lib': lib, 'p_two_threads': 0.15 if quick else 0.3, 'p_xarray': 0.1}
+    for e in lib:
+        e['sibling'] = filelib.make_sibling(e['data'], e['meta'])
+    ctx = {'seed': seed, 'lib': lib, 'p_two_threads': 0.15 if quick else 0.3, 'p_xarray': 0.1, 'p_sibling': 0.3}
     for run in range(10 ** 6, 10 ** 6 + (6 if quick else 30)):
         a, b = one_run(ctx, run), one_run(ctx, run)
         if a['ed'] != b['ed'] or a['states'] != b['states']:
@@ -277,25 +290,13 @@ def _main(tier, seed, scratch, t0):
             viols.setdefault(rec['violation']['signature'], []).append((run, rec['violation']))
     for c in crashed:
         run = c['item']
-        wl = core.stream(seed, run, 'workload')
-        e = lib[wl.randrange(len(lib))]
-        two = wl.random() < ctx['p_two_threads']
-        xr_ok = wl.random() < ctx['p_xarray']
-        n_ops = wl.choice([5, 8, 12, 20, 30, 40])
-        wl.choice(core.POLICIES)
-        ops = histories.gen_history(wl, e['meta'], n_ops, two_threads=two, xarray_ok=xr_ok)
+        e, _, _, ops = gen_params(ctx, run)
         viols.setdefault('worker_crash', []).append((run, {
             'signature': 'worker_crash', 'what': 'the reading process died while executing this history',
             'file': e['name'], 'spec': e['spec'], 'ops': ops, 'trace': [], 'index': None, 'crash': True}))
     for run in (0, 1, 2):
-        wl = core.stream(seed, run, 'workload')
-        e = lib[wl.randrange(len(lib))]
-        two = wl.random() < ctx['p_two_threads']
-        xr_ok = wl.random() < ctx['p_xarray']
-        n_ops = wl.choice([5, 8, 12, 20, 30, 40])
-        wl.choice(core.POLICIES)
-        samples.append({'run': run, 'file': e['name'],
-                        'history': histories.gen_history(wl, e['meta'], n_ops, two_threads=two, xarray_ok=xr_ok)[:14]})
+        e, _, _, ops = gen_params(ctx, run)
+        samples.append({'run': run, 'file': e['name'], 'history': ops[:14]})
     known = common.load_known(PID)
     reported = []
     for sig, lst in sorted(viols.items()):
@@ -311,7 +312,8 @@ def _main(tier, seed, scratch, t0):
         path = common.write_replay(PID, seed, f"{run}-{common.sha(sig.encode())[:8]}", doc)
         reported.append({'signature': sig, 'replay': path, 'what': doc.get('what', '')})
     expected = ['op_with_cache_hit', 'call_served_without_io', 'close_between_calls', 'method_switch_on_same_object',
-                'identical_call_repeated_on_same_object', 'kind:reader', 'kind:emulator', 'kind:xarray',
+                'identical_call_repeated_on_same_object', 'kind:reader', 'kind:emulator', 'kind:xarray', 'kind:sibling',
+                'same_call_on_file_and_sibling',
                 'opener:preload', 'opener:ccs1', 'opener:ccs2', 'opener:blob', 'opener:emulator', 'opener:handle']
     wall = time.time() - t0
     coverage = {
@@ -350,7 +352,9 @@ def _main(tier, seed, scratch, t0):
 
 def selftest_digests(seed, n, scratch):
     lib = filelib.build(seed, scratch, n_random=4)
-    ctx = {'seed': seed, 'lib': lib, 'p_two_threads': 0.3, 'p_xarray': 0.1}
+    for e in lib:
+        e['sibling'] = filelib.make_sibling(e['data'], e['meta'])
+    ctx = {'seed': seed, 'lib': lib, 'p_two_threads': 0.3, 'p_xarray': 0.1, 'p_sibling': 0.3}
 
     def f(c, run):
         r = one_run(c, run)
